@@ -14,6 +14,7 @@ import (
 	"testing"
 	"time"
 
+	remoteexecution "github.com/bazelbuild/remote-apis/build/bazel/remote/execution/v2"
 	"github.com/buildbarn/bb-storage/pkg/blobstore"
 	"github.com/buildbarn/bb-storage/pkg/blobstore/buffer"
 	"github.com/buildbarn/bb-storage/pkg/blobstore/mirrored"
@@ -21,6 +22,8 @@ import (
 	"github.com/buildbarn/bb-storage/pkg/digest"
 	"google.golang.org/grpc/codes"
 	"google.golang.org/grpc/status"
+	"google.golang.org/protobuf/encoding/prototext"
+	"google.golang.org/protobuf/proto"
 	"pgregory.net/rapid"
 
 	"verif/harness/backends"
@@ -422,6 +425,30 @@ type object struct {
 	inst string
 	data []byte
 	d    digest.Digest
+	// msg != nil: data is the serialization of this message (a Directory,
+	// Action or ActionResult stored as a CAS blob), so that a read of the
+	// object can be consumed with Buffer.ToProto.
+	msg proto.Message
+}
+
+// protoObject returns the i-th message of ln "units" and its
+// serialization. The messages of different pool indices differ.
+func protoObject(i, ln int) (proto.Message, []byte) {
+	name := fmt.Sprintf("o%d-%s", i, strings.Repeat("n", ln))
+	var m proto.Message
+	switch i % 3 {
+	case 0:
+		m = &remoteexecution.Directory{Files: []*remoteexecution.FileNode{{Name: name, IsExecutable: ln%2 == 1}}}
+	case 1:
+		m = &remoteexecution.Action{DoNotCache: true, Salt: []byte(name)}
+	default:
+		m = &remoteexecution.ActionResult{ExitCode: int32(ln + 1), StdoutRaw: []byte(name)}
+	}
+	data, err := proto.MarshalOptions{Deterministic: true}.Marshal(m)
+	if err != nil {
+		panic(err)
+	}
+	return m, data
 }
 
 var lengths = []int{0, 1, 2, 5, 8, 9, 31, 64}
@@ -445,13 +472,21 @@ func genPool(t *rapid.T, kf digest.KeyFormat) []object {
 				dup = dup || o.d == d
 			}
 			if !dup {
-				pool = append(pool, object{inst: inst, data: src.data, d: d})
+				pool = append(pool, object{inst: inst, data: src.data, d: d, msg: src.msg})
 				continue
 			}
 		}
 		ln := rapid.SampledFrom(lengths).Draw(t, fmt.Sprintf("obj%d/len", i))
 		var data []byte
-		if !(i == 0 && ln == 0) {
+		var msg proto.Message
+		switch {
+		case i == 0 && ln == 0:
+			// the empty blob, which is also the serialization of any
+			// message without fields set
+			msg = &remoteexecution.Directory{}
+		case rapid.IntRange(0, 2).Draw(t, fmt.Sprintf("obj%d/proto", i)) == 0:
+			msg, data = protoObject(i, ln)
+		default:
 			// distinct per index, so that every object has its own key
 			data = []byte(fmt.Sprintf("o%d:", i))
 			for j := 0; j < ln; j++ {
@@ -459,15 +494,71 @@ func genPool(t *rapid.T, kf digest.KeyFormat) []object {
 			}
 		}
 		inst := rapid.SampledFrom([]string{"", "x"}).Draw(t, fmt.Sprintf("obj%d/inst", i))
-		pool = append(pool, object{inst: inst, data: data, d: hx.Sha(inst, data)})
+		pool = append(pool, object{inst: inst, data: data, d: hx.Sha(inst, data), msg: msg})
 	}
 	return pool
 }
 
-// consume reads a buffer to the end with the given method.
-func consume(b buffer.Buffer, method, chunk int) ([]byte, error) {
+// readArgs are the additional arguments of the consumption methods ToProto
+// and ReadAt.
+type readArgs struct {
+	msg     proto.Message // ToProto: the message the object is the serialization of
+	full    []byte        // the complete contents the read is expected to have
+	off, ln int           // partial ReadAt: range (may extend past the end)
+}
+
+// wanted is what a successful consumption with that method returns.
+func (a readArgs) wanted(method int) []byte {
+	if method != methodReadAtPartial {
+		return a.full
+	}
+	end := a.off + a.ln
+	if end > len(a.full) {
+		end = len(a.full)
+	}
+	return a.full[a.off:end]
+}
+
+const (
+	methodToProto       = 4
+	methodReadAtFull    = 5
+	methodReadAtPartial = 6
+)
+
+// methodChoices: the distribution consumption methods are drawn from.
+var methodChoices = []int{0, 1, 2, 3, methodToProto, methodToProto, methodReadAtFull, methodReadAtPartial}
+
+// consume reads a buffer with the given method: to the end, except for
+// the partial ReadAt.
+func consume(b buffer.Buffer, method, chunk int, a readArgs) ([]byte, error) {
 	if chunk <= 0 {
 		chunk = 1
+	}
+	switch method {
+	case methodToProto:
+		m, err := b.ToProto(a.msg.ProtoReflect().New().Interface(), 1<<20)
+		if err != nil {
+			return nil, err
+		}
+		if m == nil {
+			return []byte("ToProto returned a nil message and no error"), nil
+		}
+		if !proto.Equal(m, a.msg) {
+			return []byte("ToProto returned " + prototext.MarshalOptions{}.Format(m)), nil
+		}
+		return a.full, nil
+	case methodReadAtFull, methodReadAtPartial:
+		// Full range: a slice of exactly the object's size, or one byte
+		// more (the read then runs into the end of the object).
+		off, p := 0, make([]byte, len(a.full)+chunk%2)
+		if method == methodReadAtPartial {
+			off, p = a.off, make([]byte, a.ln)
+		}
+		n, err := b.ReadAt(p, int64(off))
+		if err != nil && err != io.EOF {
+			return nil, err
+		}
+		return p[:n], nil
 	}
 	switch method {
 	case 0:
@@ -521,7 +612,13 @@ func consume(b buffer.Buffer, method, chunk int) ([]byte, error) {
 	}
 }
 
-var methodNames = []string{"ToByteSlice", "ToReader", "IntoWriter", "ToChunkReader"}
+var methodNames = []string{"ToByteSlice", "ToReader", "IntoWriter", "ToChunkReader", "ToProto", "ReadAt(all)", "ReadAt(part)"}
+
+// opDeadline bounds one operation on the pair (wall clock). The model
+// replicas never block, so an operation that is still running after this
+// long is blocked inside the code under test (e.g. waiting for a replication
+// slot that an earlier, failed replication never gave back).
+const opDeadline = 20 * time.Second
 
 // noPanic runs one operation of the code under test and turns a panic
 // in the calling goroutine into a reported violation (no draws happen
@@ -836,6 +933,16 @@ func mirroredProperty(t *testing.T, rec *vstats.Recorder) {
 			}
 			m := p.mark()
 			var obs observed
+			// "No operation blocks forever": every operation runs under a
+			// generous deadline; the model replicas answer immediately, so
+			// a deadline that expires means the operation was blocked in
+			// the code under test.
+			opCtx, opCancel := context.WithTimeout(ctx, opDeadline)
+			notBlocked := func(what string, err error) {
+				if opCtx.Err() != nil {
+					t.Fatalf("%s was still running after %v although no replica call was pending (it returned %v once its context expired): the operation blocks, e.g. on a replication slot that an earlier (failed) replication did not give back", what, opDeadline, err)
+				}
+			}
 			switch kind {
 			case "GetCapabilities":
 				c.Add(kind)
@@ -844,10 +951,11 @@ func mirroredProperty(t *testing.T, rec *vstats.Recorder) {
 				// absence of a panic.
 				var err error
 				noPanic(t, func() string { return "GetCapabilities" }, func() {
-					_, err = ba.GetCapabilities(ctx, digest.EmptyInstanceName)
+					_, err = ba.GetCapabilities(opCtx, digest.EmptyInstanceName)
 				})
 				o := p.observe(m, false)
 				obs = o
+				notBlocked("GetCapabilities", err)
 				prevFirst = -1
 				if err != nil {
 					c.Class("getcapabilities_error")
@@ -857,17 +965,33 @@ func mirroredProperty(t *testing.T, rec *vstats.Recorder) {
 			case "Get", "GetFromComposite":
 				j := rapid.IntRange(0, len(pool)-1).Draw(t, "obj")
 				obj := pool[j]
-				method := rapid.IntRange(0, 3).Draw(t, "method")
+				method := rapid.SampledFrom(methodChoices).Draw(t, "method")
 				chunk := rapid.IntRange(1, 9).Draw(t, "readchunk")
 				want := obj.data
-				c.Add(kind, j, method, chunk)
 				off, ln := 0, len(obj.data)
 				if kind == "GetFromComposite" {
 					off = rapid.IntRange(0, len(obj.data)).Draw(t, "sliceoff")
 					ln = rapid.IntRange(0, len(obj.data)-off).Draw(t, "slicelen")
-					c.Add(off, ln)
 					want = obj.data[off : off+ln]
 				}
+				// ToProto only on complete objects that are serialized
+				// messages (anything else fails to unmarshal, which is no
+				// statement about the replicas).
+				if method == methodToProto && (kind != "Get" || obj.msg == nil) {
+					method = 0
+				}
+				ra := readArgs{msg: obj.msg, full: want}
+				if method == methodReadAtPartial {
+					ra.off = rapid.IntRange(0, len(want)).Draw(t, "readat_off")
+					ra.ln = rapid.IntRange(0, len(want)-ra.off+2).Draw(t, "readat_len")
+				}
+				// A partial ReadAt does not consume the object; what it
+				// promises about work attached to the buffer (the repair
+				// copy) is less clear than for the other methods.
+				partial := method == methodReadAtPartial
+				c.Add(kind, j, method, chunk, off, ln, ra.off, ra.ln)
+				c.Class("consume_" + methodNames[method])
+				want = ra.wanted(method)
 				var got []byte
 				var err error
 				noPanic(t, func() string {
@@ -876,14 +1000,15 @@ func mirroredProperty(t *testing.T, rec *vstats.Recorder) {
 				}, func() {
 					var b buffer.Buffer
 					if kind == "Get" {
-						b = ba.Get(ctx, obj.d)
+						b = ba.Get(opCtx, obj.d)
 					} else {
-						b = ba.GetFromComposite(ctx, obj.d, hx.Sha(obj.inst, want), rangeSlicer{off, ln})
+						b = ba.GetFromComposite(opCtx, obj.d, hx.Sha(obj.inst, ra.full), rangeSlicer{off, ln})
 					}
-					got, err = consume(b, method, chunk)
+					got, err = consume(b, method, chunk, ra)
 				})
 				o := p.observe(m, true)
 				obs = o
+				notBlocked(fmt.Sprintf("%s(object %d, %s) with A->B %s, B->A %s", kind, j, methodNames[method], cfgAB, cfgBA), err)
 				what := fmt.Sprintf("%s(object %d, %s) placement before A=%v B=%v -> %d bytes, %v; %s; A->B %s, B->A %s; A %s, B %s",
 					kind, j, methodNames[method], before[j][0], before[j][1], len(got), err, o, cfgAB, cfgBA, incons[0], incons[1])
 				// The replica consulted first is the one that saw the first
@@ -919,17 +1044,29 @@ func mirroredProperty(t *testing.T, rec *vstats.Recorder) {
 					if !bytes.Equal(got, want) {
 						t.Fatalf("%s: returned %q, want %q", what, got, want)
 					}
-					if o.firstFault[F] {
-						t.Fatalf("%s: the replica consulted first (%s) failed with a non-NOT_FOUND error, yet the read succeeded: failure masked", what, p.r[F].label)
-					}
-					if o.contacted[S] && o.firstFault[S] {
-						t.Fatalf("%s: the replica consulted second (%s) failed, yet the read succeeded", what, p.r[S].label)
+					// (a partial ReadAt may legitimately return its bytes
+					// without running into a failure further down the
+					// stream)
+					if !(partial && o.midFired > 0) {
+						if o.firstFault[F] {
+							t.Fatalf("%s: the replica consulted first (%s) failed with a non-NOT_FOUND error, yet the read succeeded: failure masked", what, p.r[F].label)
+						}
+						if o.contacted[S] && o.firstFault[S] {
+							t.Fatalf("%s: the replica consulted second (%s) failed, yet the read succeeded", what, p.r[S].label)
+						}
 					}
 					// (a first replica whose stale existence cache vouches
 					// for the object tells a double-checking replicator that
-					// nothing needs to be copied: repair cannot be demanded)
+					// nothing needs to be copied: repair cannot be demanded.
+					// Nor is it demanded of a partial ReadAt: the Buffer
+					// documentation ties the attached task to the buffer
+					// "being read", which a partial read does only in part;
+					// today it waits for the copy like every other method.)
 					if consulted && copiesInto(F, obj) && !p.r[F].shaper.stale[key(obj)] && !has(F, obj) {
-						t.Fatalf("%s: read succeeded but the replica consulted first (%s) still lacks the object: no read repair", what, p.r[F].label)
+						if !partial {
+							t.Fatalf("%s: read succeeded but the replica consulted first (%s) still lacks the object: no read repair", what, p.r[F].label)
+						}
+						c.Class("partial_readat_ok_without_repair")
 					}
 				case code == codes.NotFound:
 					// A read performs no existence check: NOT_FOUND from
@@ -1080,10 +1217,11 @@ func mirroredProperty(t *testing.T, rec *vstats.Recorder) {
 				}
 				var err error
 				noPanic(t, func() string { return fmt.Sprintf("Put(object %d, wrong=%v)", j, wrong) }, func() {
-					err = ba.Put(ctx, obj.d, b)
+					err = ba.Put(opCtx, obj.d, b)
 				})
 				o := p.observe(m, false)
 				obs = o
+				notBlocked(fmt.Sprintf("Put(object %d) with A->B %s, B->A %s", j, cfgAB, cfgBA), err)
 				what := fmt.Sprintf("Put(object %d, wrong=%v) -> %v; %s", j, wrong, err, o)
 				if err == nil {
 					// (an acknowledged upload of mismatching content is caught
@@ -1136,10 +1274,11 @@ func mirroredProperty(t *testing.T, rec *vstats.Recorder) {
 				var missing digest.Set
 				var err error
 				noPanic(t, func() string { return fmt.Sprintf("FindMissing(%v) with A->B %s, B->A %s", members, cfgAB, cfgBA) }, func() {
-					missing, err = ba.FindMissing(ctx, sb.Build())
+					missing, err = ba.FindMissing(opCtx, sb.Build())
 				})
 				o := p.observe(m, false)
 				obs = o
+				notBlocked(fmt.Sprintf("FindMissing(%v) with A->B %s, B->A %s", members, cfgAB, cfgBA), err)
 				what := fmt.Sprintf("FindMissing(%v) -> %v, %v; %s; A->B %s, B->A %s; A %s, B %s", members, missing.Items(), err, o, cfgAB, cfgBA, incons[0], incons[1])
 				oneSided := 0
 				// ghostSync[i]: objects that must be synchronised FROM replica
@@ -1250,6 +1389,7 @@ func mirroredProperty(t *testing.T, rec *vstats.Recorder) {
 				}
 				rendered = append(rendered, fmt.Sprintf("FindMissing(%v)->%v,%v", members, len(missing.Items()), err))
 			}
+			opCancel()
 			checkContents(kind, before, obs)
 		}
 		c.Sample(func() string {
